@@ -21,6 +21,10 @@ pub const ZINC_HAND: &[&str] = &[
     "\"\\ud83d\\ude00 \\ud83d x \\ude00 \\ud83d\\u0041 \\udbff\\uffff \\u0000\"",
     "`a\\ud83d\\u0041b\\ud83d\\ude00`",
     "08:05:01.05",
+    // reproducers of the listed known findings (so that every run meets them)
+    "8e400°F",
+    "1937-06-05T09:56:09+00:20 Amsterdam",
+    "0021-06-05T09:56:09-07:53 Los_Angeles",
     "2021-06-07T00:00:00.000001Z",
     "`http://h/p?q=1#f`",
     "`a\\:b\\/c\\`d`",
@@ -60,6 +64,8 @@ pub const JSON_HAND: &[&str] = &[
     "-0",
     "1e19",
     "\"s \\u00e9 \\ud834\\udd1e\"",
+    "{\"_kind\":\"dateTime\",\"val\":\"0021-06-05T09:56:09-07:53\",\"tz\":\"Los_Angeles\"}",
+    "{\"_kind\":\"dateTime\",\"val\":\"1937-06-05T09:56:09+00:20\",\"tz\":\"Amsterdam\"}",
     "{\"_kind\":\"marker\"}",
     "{\"_kind\":\"na\"}",
     "{\"_kind\":\"remove\"}",
